@@ -12,6 +12,7 @@ package encrypted_leaseset
 //@ import "time"
 //@ import "github.com/go-i2p/common/destination"
 //@ import "github.com/go-i2p/common/key_certificate"
+//@ import "github.com/go-i2p/common/keys_and_cert"
 
 //@ spec func be32(v uint32) []byte { return []byte{byte(v >> 24), byte(v >> 16), byte(v >> 8), byte(v)} }
 //@ spec func be16(v uint16) []byte { return []byte{byte(v >> 8), byte(v)} }
@@ -105,11 +106,11 @@ package encrypted_leaseset
 //@ }
 
 // ---- C09: a blinded Destination obeys the Destination key-type policy (in
-// particular it never declares Ed25519ph), whatever Destination goes in.
+// particular it never declares Ed25519ph), whatever well-formed KeysAndCert the
+// input Destination wraps - including one that itself violates the policy.
 //@ option C09_BlindedDestinationPolicy nocontract *
-//@ lemma C09_BlindedDestinationPolicy(data []byte, secret []byte, date time.Time) {
-//@   d, _, err := destination.ReadDestination(data)
-//@   assume(err == nil)
+//@ lemma C09_BlindedDestinationPolicy(d destination.Destination, secret []byte, date time.Time) {
+//@   assume(d.KeysAndCert != nil && keys_and_cert.KacInv(d.KeysAndCert))
 //@   bd, e := CreateBlindedDestination(d, secret, date)
 //@   if e == nil {
 //@     assert(bd.KeysAndCert != nil && bd.KeysAndCert.KeyCertificate != nil)
